@@ -176,6 +176,8 @@ def payload_from_work(func, payload):
 
 
 def run(ctx):
+    from ..frame import check_frame_attrs
+    check_frame_attrs(ctx, 'C01', 'R5')
     P = ctx.prog
     check_decoder(ctx)
     classes = worker_classes(P, internal=True)
